@@ -44,7 +44,7 @@ func isRpCall(in ssa.Instruction, names ...string) bool {
 }
 
 func checkC04(w *World, r *Report) {
-	r.Decides = "C04 is decided in its structural part only: (a) data and applied index travel in one batch (the obligations C01.a-c); (b) Sync flushes the DB and Close flushes before closing it; (c) the publish protocol of the 'current' file: temp file created, written and synced before the save step succeeds; rename then directory sync, whose result is returned, in the replace step; the data directory is created and its parent synced; no error of a non-deferred Create/Write/Sync/Rename is dropped; (d) every publication of a directory name is preceded by the creation of that directory; (e) snapshot install order in each recoverer: received files synced, new DB built, save name, replace 'current', swap, close the value returned by the swap, cleanup; the stop edge does not reach the replace; (f) cleanup removes only entries that differ from 'current' and from the directory it names, whose name is returned only when its checksum matches; (g) Open returns the index read from the DB it opened."
+	r.Decides = "C04 is decided in its structural part only: (a) data and applied index travel in one batch (the obligations C01.a-c); (b) Sync flushes the DB and Close flushes before closing it; (c) the publish protocol of the 'current' file: temp file created, written and synced before the save step succeeds; rename then directory sync, whose result is returned, in the replace step; the data directory is created and its parent synced; no error of a non-deferred Create/Write/Sync/Rename is dropped; (d) every publication of a directory name is preceded by the creation of that directory; (e) snapshot install order in each recoverer: received files synced, new DB built, save name, replace 'current', swap, close the value returned by the swap, cleanup; the stop edge does not reach the replace; (f) cleanup removes only entries that differ from 'current' and from the directory it names, whose name is returned only when its checksum matches; (g) Open returns the index read from the DB it opened. Also: a created directory's parent is synced; nothing tears the new DB down once published; every file the package creates is complete when it is synced (h)."
 	r.NotDecided = []string{"which crash points exist between two steps and what is durable at each (the fault model itself)", "Pebble's flush/manifest atomicity with the WAL disabled", "repeated crashes"}
 	r.Assume = []string{"vfs semantics: file data durable after File.Sync, directory entries after a Sync on the directory", "pebble.Open creates the DB directory and syncs its parent entry; DB.Ingest is durable when it returns"}
 	a := w.FsmAnchors()
@@ -62,6 +62,7 @@ func checkC04(w *World, r *Report) {
 	c04InstallOrder(w, r, a, "C04.e", "e-install-order")
 	c04Cleanup(w, r)
 	c04ReopenIndex(w, r, a)
+	c04FileWrites(w, r, "C04.h", "h-created-files-complete-when-synced")
 }
 
 func c04Durability(w *World, r *Report, a *FsmA) {
@@ -223,6 +224,18 @@ func c04Publish(w *World, r *Report, id, slug string) {
 			if p := (&Walk{Barrier: isSyncDir, Target: isSuccessReturn}).Find(after(mkd)); p != nil {
 				ob.Violate("createdir-without-parent-sync", instrPos(p.Hit), "the data directory is created without syncing its parent", w.PathString(p)...)
 			}
+			// what is synced is the parent: the new directory's entry lives there
+			eachInstr(mk, func(in ssa.Instruction) {
+				if !isSyncDir(in) {
+					return
+				}
+				c := callOf(in)
+				e := Expr(c.Args[len(c.Args)-1])
+				ob.Site(in.Pos(), "create data dir: syncs "+e)
+				if !strings.Contains(e, "path/filepath.Dir(") {
+					ob.Violate("createdir-syncs-wrong-dir", in.Pos(), "after creating the data directory CreateNodeDataDir syncs `"+e+"`, not the parent directory that holds the new entry: after a power loss the table's directory is gone and Open starts an empty table at index 0")
+				}
+			})
 		}
 		c04ErrorsNotDropped(w, ob, mk, "createdir")
 	}
@@ -443,6 +456,26 @@ func c04InstallOrder(w *World, r *Report, a *FsmA, id, slug string) {
 		}
 		order(save, repl, "save-before-replace")
 		order(repl, swap, "replace-before-swap")
+		// once the new DB is swapped in the install has happened: the only error still reported is
+		// that of the final removal of the old directories (closing the replaced DB fails with
+		// "leaked iterators" whenever a streamed read is still open - not a failed install)
+		eachInstr(fn, func(in ssa.Instruction) {
+			ret, ok := in.(*ssa.Return)
+			if !ok || len(ret.Results) == 0 {
+				return
+			}
+			if (&Walk{Target: func(x ssa.Instruction) bool { return x == in }}).Find(after(swap)) == nil {
+				return
+			}
+			v := retVal(ret, len(ret.Results)-1)
+			if isNilConst(v) {
+				return
+			}
+			e := Expr(v)
+			if !strings.Contains(e, "CleanupNodeDataDir(") {
+				ob.Violate("error-after-swap@"+name, ret.Pos(), name+" can return `"+e+"` after the new DB was swapped in: the install is reported as failed although the state is already published")
+			}
+		})
 		// once published, the new DB and its directory are never torn down again - not directly
 		// and not by a deferred clean-up that fires on a late error
 		{
@@ -849,4 +882,195 @@ func helperSyncsParam(fn *ssa.Function, i int) bool {
 	}
 	wk := &Walk{Barrier: isSync, Target: func(x ssa.Instruction) bool { return isClose(x) || isSuccessReturn(x) }}
 	return wk.Find(entry(fn)) == nil
+}
+
+// c04FileWrites: every file the state-machine package creates is complete on disk when it is synced.
+func c04FileWrites(w *World, r *Report, id, slug string) {
+	ob := r.Ob(id, slug, "in every function of the state-machine package that creates a file through the vfs: a success return and the file's Close are unreachable from the Create without crossing Sync on that file, and nothing writes to the file - directly, through a bufio.Writer wrapped round it (Flush), or in a deferred call - after that Sync", "bytes written after the sync (a buffered writer flushed in a defer) are not durable: the ingested SST is truncated by a power loss although the recovery reported success")
+	n := 0
+	for _, fn := range w.ModFuncs() {
+		if !isFsmFunc(fn) || isGenerated(fn) {
+			continue
+		}
+		var creates []ssa.Instruction
+		eachInstr(fn, func(in ssa.Instruction) {
+			if isVfsCall(in, "Create") {
+				creates = append(creates, in)
+			}
+		})
+		for _, cr := range creates {
+			var fv ssa.Value
+			if v, ok := cr.(ssa.Value); ok && v.Referrers() != nil {
+				for _, rr := range *v.Referrers() {
+					if ex, ok := rr.(*ssa.Extract); ok && ex.Index == 0 {
+						fv = ex
+					}
+				}
+			}
+			if fv == nil {
+				continue
+			}
+			n++
+			ob.Site(cr.Pos(), "file created in "+FnName(fn))
+			// the file and the buffered writers wrapped round it (looked through captured variables)
+			isFile := func(v ssa.Value) bool {
+				for d := 0; d < 4; d++ {
+					if v == fv {
+						return true
+					}
+					switch x := v.(type) {
+					case *ssa.MakeInterface:
+						v = x.X
+					case *ssa.ChangeInterface:
+						v = x.X
+					case *ssa.UnOp:
+						if fvv, ok := x.X.(*ssa.FreeVar); ok {
+							if b := closureBinding(fvv.Parent(), fvv); b != nil {
+								if al, ok := b.(*ssa.Alloc); ok && al.Parent() != nil {
+									for _, st := range storesTo(al.Parent(), al) {
+										if st.Val == fv {
+											return true
+										}
+									}
+								}
+							}
+							return false
+						}
+						if al, ok := x.X.(*ssa.Alloc); ok && al.Parent() != nil {
+							for _, st := range storesTo(al.Parent(), al) {
+								if st.Val == fv {
+									return true
+								}
+							}
+						}
+						return false
+					default:
+						return false
+					}
+				}
+				return false
+			}
+			var bufs []ssa.Value
+			for _, f := range withClosures(fn) {
+				eachInstr(f, func(in ssa.Instruction) {
+					if c := plainCall(in); c != nil && (CalleeName(c) == "bufio.NewWriter" || CalleeName(c) == "bufio.NewWriterSize") && isFile(c.Args[0]) {
+						bufs = append(bufs, in.(ssa.Value))
+					}
+				})
+			}
+			isBuf := func(v ssa.Value) bool {
+				for d := 0; d < 4; d++ {
+					for _, b := range bufs {
+						if v == b {
+							return true
+						}
+					}
+					switch x := v.(type) {
+					case *ssa.MakeInterface:
+						v = x.X
+					case *ssa.UnOp:
+						var al *ssa.Alloc
+						if fvv, ok := x.X.(*ssa.FreeVar); ok {
+							if b := closureBinding(fvv.Parent(), fvv); b != nil {
+								al, _ = b.(*ssa.Alloc)
+							}
+						} else {
+							al, _ = x.X.(*ssa.Alloc)
+						}
+						if al == nil || al.Parent() == nil {
+							return false
+						}
+						for _, st := range storesTo(al.Parent(), al) {
+							for _, b := range bufs {
+								if st.Val == b {
+									return true
+								}
+							}
+						}
+						return false
+					default:
+						return false
+					}
+				}
+				return false
+			}
+			isSync := func(in ssa.Instruction) bool {
+				c := callOf(in)
+				return c != nil && c.IsInvoke() && c.Method.Name() == "Sync" && isFile(c.Value)
+			}
+			isWrite := func(in ssa.Instruction) bool {
+				c := callOf(in)
+				if c == nil {
+					return false
+				}
+				if c.IsInvoke() {
+					switch c.Method.Name() {
+					case "Write", "WriteString", "ReadFrom", "WriteAt":
+						return isFile(c.Value)
+					}
+					return false
+				}
+				n := CalleeName(c)
+				switch {
+				case strings.HasPrefix(n, "(*bufio.Writer)."):
+					return len(c.Args) > 0 && isBuf(c.Args[0])
+				case n == "io.Copy" || n == "io.CopyN" || n == "io.CopyBuffer" || n == "io.WriteString":
+					return isFile(c.Args[0]) || isBuf(c.Args[0])
+				}
+				return false
+			}
+			isClose := func(in ssa.Instruction) bool {
+				c := callOf(in)
+				_, isDefer := in.(*ssa.Defer)
+				return c != nil && !isDefer && c.IsInvoke() && c.Method.Name() == "Close" && isFile(c.Value)
+			}
+			if p := (&Walk{Barrier: isSync, Target: func(x ssa.Instruction) bool { return isClose(x) || isSuccessReturn(x) }}).Find(after(cr)); p != nil {
+				ob.Violate("created-file-not-synced@"+FnName(fn), cr.Pos(), FnName(fn)+" can close the file it created, or return successfully, without having synced it", w.PathString(p)...)
+			}
+			var syncs []ssa.Instruction
+			eachInstr(fn, func(in ssa.Instruction) {
+				if isSync(in) {
+					syncs = append(syncs, in)
+				}
+			})
+			for _, sy := range syncs {
+				// (the Create is a barrier: round the loop it is the next file that is written)
+				if p := (&Walk{Barrier: func(x ssa.Instruction) bool { return x == cr }, Target: func(x ssa.Instruction) bool {
+					_, isDefer := x.(*ssa.Defer)
+					return !isDefer && isWrite(x)
+				}}).Find(after(sy)); p != nil {
+					ob.Violate("write-after-sync@"+FnName(fn), instrPos(p.Hit), FnName(fn)+" writes to the file after it was synced", w.PathString(p)...)
+				}
+			}
+			// deferred writes run after every sync of the function body
+			if len(syncs) > 0 {
+				eachInstr(fn, func(in ssa.Instruction) {
+					d, ok := in.(*ssa.Defer)
+					if !ok {
+						return
+					}
+					late := false
+					if isWrite(in) {
+						late = true
+					}
+					if mc, ok := d.Call.Value.(*ssa.MakeClosure); ok {
+						if body, ok := mc.Fn.(*ssa.Function); ok {
+							eachInstr(body, func(x ssa.Instruction) {
+								if isWrite(x) {
+									late = true
+								}
+							})
+						}
+					}
+					if late {
+						ob.Violate("write-after-sync@"+FnName(fn), in.Pos(), FnName(fn)+" defers a write (a Flush of the buffered writer) to the file: it runs after the Sync, so what it writes is not durable when the function reports success")
+					}
+				})
+			}
+		}
+	}
+	if n == 0 {
+		ob.Undecided("shape", "no file creation found in the state-machine package")
+	}
+	ob.NeedFloor(1)
 }
